@@ -143,16 +143,6 @@ def _check_multi_types(ctx, S, site, op, pushes):
             ctx.check(ok, "R05.2", construct, f"output types {names} do not match what '{S.teal_name(op)}' pushes ({pushes})", site.where, fact={"types": names, "pushes": pushes})
 
 
-def run(ctx):
-    r05_1_operand_typing(ctx)
-    r05_2_result_typing(ctx)
-    return (
-        "Every emission site (class-level and factory-level, path-sensitive partial evaluation of constructors and __teal__) is typed "
-        "against the op signature of the AVM reference table under the require_type constraints that dominate it; declared result types "
-        "equal the op's pushes; literal op lists have the declared stack effect."
-    )
-
-
 # ------------------------------------------------------------------------------------------
 def _params_in(e: ast.AST):
     return {n.id[3:].lstrip("*") for n in ast.walk(e) if isinstance(n, ast.Name) and n.id.startswith("$p_")}
@@ -216,15 +206,256 @@ def r05_1b_lowered_params(ctx):
     ctx.require_min("R05.1b", 60)
 
 
-_run0 = run
+
+# ------------------------------------------------------------------------------------------
+from sa import q  # noqa: E402
+from sa.lowerworld import World, term_run, norm_term  # noqa: E402
+from sa.minieval import OpVal, Raised, Rec, StackError, Sym, Unknown, run_function  # noqa: E402
+import itertools  # noqa: E402
+
+
+def ref_require_ok(actual: str, expected: str) -> bool:
+    """reference: a value of type `actual` is acceptable where `expected` is required iff they are equal,
+    or neither is none and one of them is anytype"""
+    if actual == expected:
+        return True
+    if actual == "none" or expected == "none":
+        return False
+    return actual == "anytype" or expected == "anytype"
+
+
+def r05_6_type_relation(ctx):
+    ctx.rule("R05.6", "require_type accepts exactly the reference compatibility relation over TealType x TealType (the basis of every constructor-time type check)")
+    f = ctx.model.find_func("require_type", "pyteal.types")
+    ctx.analysed(f.fq)
+    W = World(ctx.model)
+    types = ["none", "uint64", "bytes", "anytype"]
+    for a in types:
+        for e in types:
+            inp = Sym("input", methods={"type_of": lambda a=a: W.TT.attrs[a]})
+            try:
+                run_function(f.node, {"input": inp, "expected": W.TT.attrs[e]}, W.oracle(), f.fq, permissive=True)
+                accepted = True
+            except Raised as r:
+                accepted = False
+                if "TealTypeError" not in r.exc_text:
+                    ctx.bad("R05.6", f"require_type[{a},{e}]", f"refuses with {r.exc_text[:40]} instead of TealTypeError", f.where)
+                    continue
+            ctx.check(accepted == ref_require_ok(a, e), "R05.6", f"require_type[{a},{e}]", f"require_type(<{a}>, {e}) {'accepts' if accepted else 'refuses'}; the reference relation says {'accept' if ref_require_ok(a, e) else 'refuse'}", f.where, fact={"accepted": accepted})
+    ctx.require_min("R05.6", 16)
+
+
+def _lower(ctx, W, cls, attrs, version=10, **kw):
+    val, me, f = W.run_teal(cls, attrs, W.options(version), **kw)
+    q.need(isinstance(val, tuple) and len(val) == 2 and isinstance(val[0], Sym) and isinstance(val[1], Sym), f"{f.fq}: does not return a (start, end) block pair")
+    return W.chain(val[0], val[1]), f
+
+
+def r05_3_literal_op_lists(ctx):
+    ctx.rule("R05.3", "every hand-written op list leaves exactly what its construct declares: WideRatio n x m factors -> one uint64; Suffix -> one bytes value; DupN(rep) -> rep+1 copies; frame layout -> one typed zero per local; MultiValue stores consume every output, last output on top")
+    W = World(ctx.model)
+    # ---- WideRatio
+    maxn = 3 if ctx.tier == "quick" else 5
+    for n, m in itertools.product(range(1, maxn + 1), repeat=2):
+        if n == 1 and m == 1:
+            continue
+        nums = [W.child(f"N{i}") for i in range(n)]
+        dens = [W.child(f"D{i}") for i in range(m)]
+        mf = ctx.model.find_func("multiplyFactors", "pyteal.ast.widemath")
+
+        def extra(e, me, mf=mf):
+            if isinstance(e, ast.Call) and u(e.func) == "multiplyFactors":
+                a = [me.ev(x) for x in e.args]
+                return me.call_def(mf.node, a, {}, {})
+            raise Unknown()
+
+        construct = f"WideRatio[{n}x{m}]"
+        try:
+            ops, f = _lower(ctx, W, "WideRatio", {"numeratorFactors": nums, "denominatorFactors": dens}, extra=extra)
+            stack, asserted, tstack = term_run(W, ops, ["BASE"])
+            ok = len(stack) == 2 and stack[0] == "BASE" and tstack[-1] == "u"
+            ctx.check(ok, "R05.3", construct, f"leaves {len(stack) - 1} value(s) of type {tstack[1:]} on the stack; a WideRatio is one uint64", f.where, fact={"ops": len(ops), "result": repr(norm_term(stack[-1]))[:120] if len(stack) > 1 else None})
+        except StackError as e:
+            ctx.bad("R05.3", construct, f"op list underflows or is ill-typed: {e}", "pyteal/ast/widemath.py")
+    # ---- Suffix (substring3 form and extract form)
+    for start_kind in ("expr", "int-small", "int-large"):
+        s = W.child("S", "bytes")
+        if start_kind == "expr":
+            i = W.child("I", "uint64")
+        else:
+            val = 3 if start_kind == "int-small" else 300
+            i = W.child("I", "uint64", isa=("Expr", "Int"))
+            i.attrs["value"] = val
+        construct = f"SuffixExpr[{start_kind}]"
+        try:
+            ops, f = _lower(ctx, W, "SuffixExpr", {"stringArg": s, "startArg": i})
+            stack, asserted, tstack = term_run(W, ops, ["BASE"])
+            ok = len(stack) == 2 and tstack[-1] == "b"
+            if ok:
+                t = stack[-1]
+                if t[0] == "substring3":
+                    ok = t[1] == ("S", "I", ("len", ("S",), 0))
+                    why = f"computes {t}; a suffix is substring3(S, I, len(S))"
+                else:
+                    ok = t[0] == "extract" and t[1] == ("S", i.attrs.get("value"), 0)
+                    why = f"computes {t}; the constant form is extract <start> 0 over S"
+            else:
+                why = f"leaves {stack[1:]} typed {tstack[1:]}"
+            ctx.check(ok, "R05.3", construct, why, f.where, fact={"term": repr(stack[-1])[:100]})
+        except StackError as e:
+            ctx.bad("R05.3", construct, f"op list underflows or is ill-typed: {e}", "pyteal/ast/substring.py")
+    # ---- DupN and the frame layout built from it
+    for rep in (0, 1, 2, 5):
+        v = W.child("V", "uint64")
+        ops, f = _lower(ctx, W, "DupN", {"value": v, "repetition": rep})
+        stack, _a, _t = term_run(W, ops, ["BASE"])
+        ctx.check(stack == ["BASE"] + ["V"] * (rep + 1), "R05.3", f"DupN[{rep}]", f"DupN(value, {rep}) leaves {len(stack) - 1} value(s); it must leave {rep + 1} copies", f.where, fact={"ops": [repr(o) for o in ops]})
+    lts = ctx.model.find_class("LocalTypeSegment", "pyteal.ast.frame")
+    for count in (1, 2, 4):
+        v = W.child("Z", "uint64")
+        dn = ctx.model.find_class("DupN", "pyteal.ast.frame")
+
+        def extra(e, me):
+            if u(e) == "DupN":
+                def mk(value, repetition):
+                    return Sym("dupn", methods={"__teal__": lambda options: W.run_teal("DupN", {"value": value, "repetition": repetition}, options)[0]})
+                return mk
+            raise Unknown()
+
+        ops, f = _lower(ctx, W, "LocalTypeSegment", {"auto_instance": v, "count": count, "local_type": W.TT.attrs["uint64"]}, extra=extra)
+        stack, _a, _t = term_run(W, ops, ["BASE"])
+        ctx.check(stack == ["BASE"] + ["Z"] * count, "R05.3", f"LocalTypeSegment[{count}]", f"a segment of {count} local(s) allocates {len(stack) - 1} stack cell(s)", f.where, fact={"ops": [repr(o) for o in ops]})
+    # ---- MultiValue: outputs are stored with the last output on top
+    for k in (1, 2, 3):
+        stored = []
+        slots = []
+        for j in range(k):
+            sl = Sym(f"out{j}")
+
+            def store(sl=sl):
+                def teal(options, sl=sl):
+                    b = W.simple_block([OpVal("store", [sl.name])])
+                    return (b, b)
+                return Sym("stack-store", attrs={"_sframes_container": None}, methods={"__teal__": teal})
+
+            sl.methods["store"] = store
+            slots.append(sl)
+        args = [W.child("A", "uint64")]
+        # a synthetic op with k pushes: use the real signatures where they exist
+        opname = {1: "sha256", 2: "mulw", 3: None}[k]
+        if opname is None:
+            continue
+        if k == 2:
+            args = [W.child("A", "uint64"), W.child("B", "uint64")]
+        else:
+            args = [W.child("A", "bytes")]
+        ops, f = _lower(ctx, W, "MultiValue", {"op": W.OpS.attrs[opname], "types": [], "immediate_args": [], "args": args, "output_slots": slots, "compile_check": lambda options: None}, self_methods={"compile_check": lambda options: None})
+        stack, _a, _t = term_run(W, ops, ["BASE"])
+        # interpret the stores: mem[slot] = term
+        from sa.minieval import Stack
+
+        st = Stack(["BASE"])
+        teal = W.optab[opname]["teal"]
+        want = {f"out{j}": (teal, tuple(a.name.split(":")[1] for a in args), j) for j in range(k)}
+        got = {}
+        sstack, _a2, _t2 = [], [], []
+        # re-run keeping memory: term_run keeps memory in its Stack; replicate
+        cells = ["BASE"]
+        for o in ops:
+            if o.op == "$push":
+                cells.append(o.args[0])
+            elif o.op == "store":
+                got[o.args[0]] = cells.pop()
+            else:
+                sig, tname = __import__("sa.lowerworld", fromlist=["op_sig"]).op_sig(W, o.op)
+                kk = len(sig["pops"])
+                popped = tuple(cells[len(cells) - kk:])
+                del cells[len(cells) - kk:]
+                for i2 in range(len(sig["pushes"])):
+                    cells.append((tname, popped, i2))
+        ctx.check(cells == ["BASE"] and got == want, "R05.3", f"MultiValue[{k} outputs]", f"after the stores the stack holds {cells[1:]} and the output slots hold {got}; expected every output consumed and output j in slot j", f.where, fact={"slots": {a: repr(b) for a, b in got.items()}})
+    ctx.require_min("R05.3", 12)
+
+
+TYPING_TABLE = [
+    # (class, method, subject text, required type text, reason)
+    ("While", "__init__", "cond", "TealType.uint64"),
+    ("While", "Do", "doBlock", "TealType.none"),
+    ("For", "__init__", "cond", "TealType.uint64"),
+    ("For", "__init__", "start", "TealType.none"),
+    ("For", "__init__", "step", "TealType.none"),
+    ("For", "Do", "doBlock", "TealType.none"),
+    ("If", "__init__", "cond", "TealType.uint64"),
+    ("If", "__init__", "thenBranch", "elseBranch.type_of()"),
+    ("If", "__init__", "thenBranch", "TealType.none"),
+    ("If", "Else", "elseBranch", "self.thenBranch.type_of()"),
+    ("If", "type_of", "self.thenBranch", "TealType.none"),
+    ("Assert", "__init__", "cond", "TealType.uint64"),
+    ("Assert", "__init__", "cond_single", "TealType.uint64"),
+    ("Cond", "__init__", "arg[0]", "TealType.uint64"),
+    ("Cond", "__init__", "arg[1]", "value_type"),
+    ("Seq", "__init__", "expr", "TealType.none"),
+    ("ScratchVar", "store", "value", "self.type"),
+    ("DynamicScratchVar", "store", "value", "self.dynamic_type"),
+    ("FrameBury", "__init__", "value", "target_type"),
+    ("DupN", "__init__", "value", "TealType.anytype"),
+    ("ExitProgram", "__init__", "success", "TealType.uint64"),
+    ("SuffixExpr", "__init__", "stringArg", "TealType.bytes"),
+    ("SuffixExpr", "__init__", "startArg", "TealType.uint64"),
+]
+
+
+def r05_4_construct_typing(ctx):
+    ctx.rule("R05.4", "construct typing table: conditions are uint64, loop parts and non-final sequence elements are none, branches agree, stores match their variable's type - each enforced by a require_type that dominates the attribute store")
+    for cname, meth, subj, ty in TYPING_TABLE:
+        c = ctx.model.find_class(cname)
+        f = ctx.model.resolve_method(c, meth)
+        q.need(f is not None, f"{cname}.{meth} vanished")
+        ctx.analysed(f.fq)
+        hits = [x for x in q.calls_named(f.node, "require_type", into_nested=False) if len(x.args) == 2 and u(x.args[0]) == subj and u(x.args[1]) == ty]
+        construct = f"{cname}.{meth}:{subj}:{ty}"
+        if not hits:
+            ctx.bad("R05.4", construct, f"{cname}.{meth} no longer requires `{subj}` to be of type {ty}", f.where)
+            continue
+        # the check must not be bypassable: the attribute store of the subject (if any) comes after it
+        stores = [n for n in walk_local(f.node) if isinstance(n, ast.Assign) and isinstance(n.targets[0], ast.Attribute) and u(n.targets[0].value) == "self" and subj in [x.id for x in ast.walk(n.value) if isinstance(x, ast.Name)]]
+        ok = all(h.lineno < s.lineno for h in hits[:1] for s in stores)
+        ctx.check(ok, "R05.4", construct, f"the type check on `{subj}` comes after the value is stored", f"{f.module.rel}:{hits[0].lineno}", fact={"guards": q.nguards(hits[0])[-2:]})
+    # Seq: the check applies to every element but the last
+    c = ctx.model.find_class("Seq")
+    f = c.methods["__init__"]
+    h = [x for x in q.calls_named(f.node, "require_type", into_nested=False)][0]
+    gs = q.nguards(h)
+    ctx.check(("i + 1 < len(exprs)", True) in gs and ("isinstance(expr, Expr)", True) in gs, "R05.4", "Seq.__init__:all-but-last", f"every element except the last must be checked to be of type none (guards {gs})", f.where, fact={"guards": gs})
+    # If: which check applies when
+    c = ctx.model.find_class("If")
+    f = c.methods["__init__"]
+    for x in q.calls_named(f.node, "require_type", into_nested=False):
+        if u(x.args[0]) == "thenBranch":
+            gs = q.nguards(x)
+            want = [("thenBranch", True), ("elseBranch", True)] if "elseBranch" in u(x.args[1]) else [("thenBranch", True), ("elseBranch", False)]
+            ctx.check(gs == want, "R05.4", f"If.__init__:{u(x.args[1])}:when", f"guards {gs}, expected {want}", f"{f.module.rel}:{x.lineno}", fact={"guards": gs})
+    ctx.require_min("R05.4", 24)
+
+
+from sa.astutil import walk_local  # noqa: E402
 
 
 def run(ctx):  # noqa: F811
     r05_1_operand_typing(ctx)
     r05_1b_lowered_params(ctx)
     r05_2_result_typing(ctx)
+    r05_3_literal_op_lists(ctx)
+    r05_4_construct_typing(ctx)
+    r05_6_type_relation(ctx)
+    from rules import c02 as _c02, c03 as _c03
+
+    _c02.r02_3_spill(ctx)  # spill sequences are stack-neutral around callsub (shared with C02)
+    _c03.r03_2_dependency_scan(ctx)  # optimiser deletions (shared with C03)
+    _c03.r03_3_cancellation(ctx)
     return (
-        "Every emission site (class-level and factory-level, path-sensitive partial evaluation of constructors and __teal__) is typed "
-        "against the op signature of the AVM reference table under the require_type constraints that dominate it; declared result types "
-        "equal the op's pushes; literal op lists have the declared stack effect."
+        "Every emission site (class-level and factory-level, path-sensitive partial evaluation of constructors and __teal__) is typed against the op signature of the AVM "
+        "reference table under the require_type constraints that dominate it; declared result types equal the op's pushes; hand-written op lists (WideRatio, Suffix, DupN, frame "
+        "layout, MultiValue stores, recursion spill) are pushed through a typed abstract stack machine; the construct typing table and the require_type relation itself are checked; "
+        "optimiser deletions are stack-neutral over all short sequences."
     )
